@@ -265,16 +265,56 @@ func runC10(p *core.Program, r *core.Report) {
 		}
 		calls := core.CallsTo(info, cc, true, "strconv.FormatFloat")
 		ok := len(calls) >= 1
+		why5 := ""
+		g5 := graph(f)
 		for _, c := range calls {
-			if len(c.Args) != 4 || !constIs(info, c.Args[1], 'f') || !constIs(info, c.Args[2], -1) || !constIs(info, c.Args[3], spec.bits) {
-				ok = false
+			if len(c.Args) != 4 || !constIs(info, c.Args[2], -1) || !constIs(info, c.Args[3], spec.bits) {
+				ok, why5 = false, "not the shortest representation that reads back as the same "+spec.kind
+				continue
+			}
+			switch {
+			case constIs(info, c.Args[1], 'g'), constIs(info, c.Args[1], 'e'), constIs(info, c.Args[1], 'G'), constIs(info, c.Args[1], 'E'):
+				// always a floating-point literal
+			case constIs(info, c.Args[1], 'f'):
+				// 'f' writes a float without fraction as an integer literal: as a constant it may have at most 512 bits
+				// (about 1.3e154). Every float32 is below that; a float64 needs a magnitude guard on the way.
+				if spec.bits == 32 {
+					break
+				}
+				guarded := false
+				for _, fct := range g5.FactsAt(g5.PointOf(c)) {
+					b, isBin := ast.Unparen(fct.Cond).(*ast.BinaryExpr)
+					if !isBin || fct.Tag != nil {
+						continue
+					}
+					op := b.Op
+					if !fct.Val {
+						op = negate(op)
+					}
+					ac := core.AsCall(info, b.X, "math.Abs")
+					if ac == nil || (op != token.LSS && op != token.LEQ) {
+						continue
+					}
+					if tv, okc := info.Types[b.Y]; okc && tv.Value != nil {
+						if k, _ := constant.Float64Val(constant.ToFloat(tv.Value)); k > 0 && k <= 1e154 {
+							guarded = true
+						}
+					}
+				}
+				if !guarded {
+					ok, why5 = false, "'f' format without a bound on the magnitude: a float64 of 2^512 or more (math.MaxFloat64) is written as an integer literal of more than 512 bits, which the compiler rejects (constant overflow)"
+				}
+			default:
+				ok, why5 = false, "unknown format byte"
 			}
 		}
 		if len(clauseKinds(info, cc)) != 1 {
 			ok = false // a shared arm cannot use the right bit size for both
 		}
-		r.Check(ok, "R5", f, spec.kind+" is formatted with 'f', -1 and bit size "+itoa(spec.bits), cc.Pos(), "strconv.FormatFloat(v, 'f', -1, "+itoa(spec.bits)+")",
-			spec.kind+" is not formatted as FormatFloat(v, 'f', -1, "+itoa(spec.bits)+"): the shortest representation for the wrong bit size does not round-trip (float32 0.1 -> 0.10000000149011612) or loses precision")
+		if why5 == "" {
+			why5 = "the arm is shared between float kinds or has no FormatFloat call"
+		}
+		r.Check(ok, "R5", f, spec.kind+" is formatted as the shortest literal that reads back (precision -1, bit size "+itoa(spec.bits)+") and compiles for every magnitude", cc.Pos(), "strconv.FormatFloat(v, fmt, -1, "+itoa(spec.bits)+"), 'f' only below 2^512", spec.kind+" values are not rendered so that they read back as the same value: "+why5)
 	}
 
 	// R6: map keys sorted; index-order loops
@@ -376,6 +416,9 @@ func runC10(p *core.Program, r *core.Report) {
 	// R9: the printers remember nothing between values (shared with C11.R7): a type prefix or
 	// nested literal served from a cache keyed by anything but the type's identity belongs to another type
 	dumperStatelessRule(p, r, "R9")
+	c10R10(p, r, f, armOf)
+	// R11: "compiled in a file with the imports it registered": the name a package is imported under is an identifier
+	chainRules(p, r, "R11", "C03", []string{"C03.R5"}, "import names are valid non-keyword identifiers")
 }
 
 // numClass: signed / unsigned / float class of a reflect kind name or a basic type.
@@ -796,4 +839,91 @@ func stringBuild(info *types.Info, e ast.Expr) (string, []ast.Expr, bool) {
 		return lt + rt, append(lo, ro...), true
 	}
 	return "", nil, false
+}
+
+// c10R10 (sibling agreement): the pointer arm takes the address of what the struct, map, slice and array arms render
+// (`&(<literal>)`), which only compiles for a composite literal. Every non-empty result of these arms therefore has the
+// shape `<type literal>{ ... }`: the text that starts the result is the type literal followed by an opening brace.
+func c10R10(p *core.Program, r *core.Report, f *core.Func, armOf map[string]*ast.CaseClause) {
+	const rule = "R10"
+	r.Floor(rule, 3)
+	info := f.Info()
+	// leading text of a builder: what it is created with plus its first two writes, operands as \x00
+	leadOfBuilder := func(v *types.Var, scope ast.Node) (string, bool) {
+		d, ok := core.SingleDef(info, f.Body, v)
+		if !ok {
+			return "", false
+		}
+		lead := ""
+		if c, isCall := ast.Unparen(d.Rhs).(*ast.CallExpr); isCall && core.CalleeName(info, c) == "bytes.NewBufferString" && len(c.Args) == 1 {
+			t, okT := exprTemplate(info, c.Args[0])
+			if !okT {
+				return "", false
+			}
+			lead = t.Text
+		}
+		writes := 0
+		ast.Inspect(scope, func(n ast.Node) bool {
+			c, isCall := n.(*ast.CallExpr)
+			if !isCall || writes >= 2 || c.Pos() < d.Stmt.Pos() {
+				return true
+			}
+			dest, t, okW := writeTemplate(info, c)
+			if okW && core.VarOf(info, dest) == v {
+				lead += t.Text
+				writes++
+			}
+			return true
+		})
+		return lead, true
+	}
+	var leadOf func(e ast.Expr, scope ast.Node) (string, bool)
+	leadOf = func(e ast.Expr, scope ast.Node) (string, bool) {
+		e = ast.Unparen(e)
+		if b, ok := e.(*ast.BinaryExpr); ok && b.Op == token.ADD {
+			l, ok1 := leadOf(b.X, scope)
+			rr, ok2 := leadOf(b.Y, scope)
+			return l + rr, ok1 && ok2
+		}
+		if c, ok := e.(*ast.CallExpr); ok {
+			if sel, isSel := ast.Unparen(c.Fun).(*ast.SelectorExpr); isSel && sel.Sel.Name == "String" && len(c.Args) == 0 {
+				if v := core.VarOf(info, sel.X); v != nil {
+					return leadOfBuilder(v, scope)
+				}
+			}
+		}
+		t, ok := exprTemplate(info, e)
+		if !ok {
+			return "", false
+		}
+		return t.Text, true
+	}
+	for _, kind := range []string{"struct", "map", "slice", "array"} {
+		cc := armOf[kind]
+		if cc == nil {
+			continue
+		}
+		seen := map[*ast.CaseClause]bool{}
+		if seen[cc] {
+			continue
+		}
+		seen[cc] = true
+		ast.Inspect(cc, func(n ast.Node) bool {
+			if _, isLit := n.(*ast.FuncLit); isLit {
+				return false
+			}
+			ret, ok := n.(*ast.ReturnStmt)
+			if !ok || len(ret.Results) != 1 {
+				return true
+			}
+			if constStrIs(info, ret.Results[0], "") {
+				return true // the omitted empty sub-struct: nothing to take the address of
+			}
+			lead, okL := leadOf(ret.Results[0], cc)
+			good := okL && strings.HasPrefix(lead, "\x00{")
+			r.Check(good, rule, f, "the "+kind+" arm renders a composite literal: "+core.ExprStr(ret), ret.Pos(), "the result starts with the type literal followed by `{`",
+				"a result of the "+kind+" arm is not of the form `<type>{...}`: the pointer arm writes `&(<literal>)` for this kind, and the address of anything but a composite literal (a conversion `T(\"...\")`, a call) does not compile")
+			return true
+		})
+	}
 }
